@@ -28,6 +28,7 @@ EXPLANATION = (
     'copy per entry point with value constraints (time = 0, 4/4, DEFAULT_QUARTERS_PER_MINUTE); NF of quantize_to_step after '
     'inlining locals and the default of quantize_cutoff; 5 call sites pass exactly two arguments, source/target field pairing; '
     'steps_per_quarter_to_steps_per_second = spq*qpm/60; PAIR rules in the note loop; raise inventory and dominance.')
+EXPLANATION += (' ' + 'Added after the seeded-change round: FRAME/single-at-zero (the element kept by `del C[1:]` is the one whose time is set to 0, on the stored container of the copy) and PAIR/total-then-notes (total_quantized_steps is assigned before and never after _quantize_notes, whose max-extension would otherwise be overwritten).')
 TRUSTED = ['int() and math.floor() agree on the accepted (non-negative) domain', 'protobuf copy semantics']
 NOT_DECIDED = ['monotonicity and stretch invariance of step assignment (floating point)', 'behaviour within a few ulps of a half-step boundary']
 ASSUMPTIONS = []
